@@ -59,6 +59,7 @@ type scenario struct {
 	idleDrop                                                            bool          // the server may close the idle connection (no request in flight)
 	dropInHandshake                                                     bool          // after a drop, the server may close the next accepted connection before answering the handshake
 	sequential                                                          int           // further requests issued one after another by caller 0
+	callerDeadline                                                      time.Duration // callers pass a context with their own deadline (later than the client timeout)
 }
 
 type callResult struct {
@@ -288,6 +289,7 @@ func harnesses(r *fw.Run) []fw.HarnessSpec {
 		{name: "idle-drop-then-request", callers: 1, idle: 9 * time.Second, idleDrop: true, fresh: true},
 		{name: "drop-during-reconnect", callers: 1, closeConn: true, dropInHandshake: true, fresh: true},
 		{name: "one-caller-sequence", callers: 1, sequential: 2, reorder: true, dup: true},
+		{name: "caller-context-with-later-deadline", callers: 2, withhold: true, callerDeadline: 20 * time.Second},
 	}
 	bounds := map[string]int{"idle-then-slow-answer": 1}
 	for _, sc := range scen {
@@ -343,8 +345,15 @@ func runScenario(c *enum.Ctx, sc scenario) {
 			payload := []byte(fmt.Sprintf("query-%d-%s", i, bytes.Repeat([]byte{'x'}, i*5)))
 			s.GoClient(fmt.Sprintf("caller%d", i), func() {
 				st := s.Now()
-				res, err := client.Request(vctx.Background(), payload)
-				results = append(results, callResult{i, payload, res, err, st, s.Now()})
+				ctx := vctx.Background()
+				cancel := func() {}
+				if sc.callerDeadline > 0 {
+					ctx, cancel = vctx.WithTimeout(ctx, sc.callerDeadline)
+				}
+				res, err := client.Request(ctx, payload)
+				end := s.Now()
+				cancel() // (a scheduling point: before the caller is counted as done)
+				results = append(results, callResult{i, payload, res, err, st, end})
 				for k := 0; i == 0 && k < sc.sequential; k++ {
 					p2 := []byte(fmt.Sprintf("query-0-seq-%d", k))
 					st := s.Now()
